@@ -353,90 +353,10 @@ def run(rep, repo, tier):
             rep.inconclusive('C15.R3', pf.where, 'parse() is inside the interpreted fragment [-mp %s]' % mpval, got=str(u))
             continue
         cfg = '[-mp %s]' % mpval
-        # ---- R2: required / banned sets from the error guards that compare with get_default ----
-        req, ban = set(), set()
-        for e, ctx in iter_effects(effs):
-            if e.kind == 'if' and any(x.kind == 'expr' and x.term[0] == 'call' and x.term[1][0] == 'attr' and x.term[1][2] == 'error' for x in e.then):
-                c = e.cond
-                neg = False
-                while c[0] == 'not':
-                    neg, c = not neg, c[1]
-                if c[0] == 'cmp' and c[1] in ('Eq', 'NotEq', 'Is', 'IsNot'):
-                    a_, b_ = c[2], c[3]
-                    gd = b_ if (b_[0] == 'call' and b_[1][0] == 'attr' and b_[1][2] == 'get_default') else (a_ if (a_[0] == 'call' and a_[1][0] == 'attr' and a_[1][2] == 'get_default') else None)
-                    val = a_ if gd is b_ else b_
-                    if gd is not None and val[0] == 'attr' and val[1] == ARGS and gd[2] and gd[2][0][0] == 'const':
-                        label = gd[2][0][1]
-                        dest = val[2]
-                        is_eq = (c[1] in ('Eq', 'Is')) != neg
-                        (req if is_eq else ban).add(dest)
-                        d1 = table.get(dest).default if dest in table else 'missing'
-                        d2 = table.get(label).default if label in table else 'missing'
-                        rep.check(d1 == d2, 'C15.R2', pf.where, 'the presence test of %s compares with its own default %s' % (dest, cfg), got='label %r has default %r, option has %r' % (label, d2, d1),
-                                  construct='presence test of %s uses default of %s' % (dest, label), loc=e.loc)
-        rep.check(req == spec.GEN_REQUIRED[T], 'C15.R2', pf.where, 'required parameters of %s are the documented ones' % T, got=sorted(req), want=sorted(spec.GEN_REQUIRED[T]),
-                  construct='required set of %s: %s' % (T, sorted(req)))
-        rep.check(ban == spec.GEN_BANNED[T], 'C15.R2', pf.where, 'inapplicable parameters of %s are refused' % T, got=sorted(ban), want=sorted(spec.GEN_BANNED[T]),
-                  construct='banned set of %s: %s' % (T, sorted(ban)))
-        # ---- R3/R4: walk with None-ness ----
-        w = Walker(table, rep, pf.where, cfg)
-        st0 = initial_state(table)
-        st, _ = w.walk(effs, st0)
-        seen = set()
-        for msg, x, c, e in w.errs:
-            key = (msg, show(x), e.loc)
-            if key in seen:
-                continue
-            seen.add(key)
-            rep.fail('C15.R3', e.where, 'option checks never compare a possibly absent value %s' % cfg, got='%s: %s in %s' % (msg, show(x)[:80], show(c)[:120]),
-                     want='value known to be present', construct='%s: %s %s' % (msg, Absval.dest_of(x) or show(x)[:40], cfg), loc=e.loc)
-        if st is None:
-            rep.fail('C15.R3', pf.where, 'some argument set of type %s is accepted' % T, got='every path through parse() ends in parser.error', construct='no accepting path %s' % cfg)
+        res = semantic_tables(rep, repo, pf, table, T, mpval, effs, it)
+        if res is None:
             continue
-        if not w.errs:
-            rep.ok('C15.R3', pf.where, 'all option checks are evaluated on present values %s' % cfg, got='%d guards ending in parser.error walked' % len(w.error_guards))
-        # final abstract values of every option
-        av = Absval(table, st)
-        final = {}
-        for d in table:
-            t = it.heap.get(A(ARGS, d), A(ARGS, d))
-            final[d] = av.val(t, st)
-        final_states[T] = (final, st, it)
-        # ---- R4 documented bounds ----
-        atoms = []
-        for cond, st_at, e in w.error_guards:
-            def leaves(c, siblings):
-                if c[0] == 'bool':
-                    for i_, part in enumerate(c[2]):
-                        sib = siblings + ([p for j_, p in enumerate(c[2]) if j_ != i_] if c[1] == 'and' else [])
-                        leaves(part, sib)
-                else:
-                    a = atom_norm(c, inttypes)
-                    if a is not None:
-                        atoms.append((a, siblings, st_at, e, cond))
-            leaves(cond, [])
-        for name, viol in spec.GEN_BOUNDS:
-            if T not in APPLIES.get(name, tuple(TYPES)):
-                continue
-            vt = viol
-            if T == 'SM':
-                vt = vt.replace('n2', 'n1')
-            want = parse_doc_bound(vt, inttypes)
-            hit = None
-            for a, sibs, st_at, e, cond in atoms:
-                if a == want:
-                    avv = Absval(table, st_at)
-                    if all(avv.truth(sb, st_at) == (True, False) for sb in sibs):
-                        hit = e
-                        break
-            near = [(a, e) for a, sibs, st_at, e, cond in atoms if a[1:] == want[1:] or (a[1], a[2]) == (want[1], want[2])]
-            if hit is not None:
-                rep.ok('C15.R4', hit.where, 'bound %s is enforced for %s' % (name, T), got='%s %s %s -> parser.error' % (want[1], want[0], want[2]), loc=hit.loc)
-            else:
-                cand = [(a, sibs) for a, sibs, st_at, e, cond in atoms if a == want]
-                rep.fail('C15.R4', pf.where, 'bound %s is enforced for problem type %s' % (name, T),
-                         got=('guard exists but is skipped for this type (needs %s)' % [show(s)[:50] for s in cand[0][1]]) if cand else 'no guard ending in parser.error tests %s %s %s' % (want[1], want[0], want[2]),
-                         want='if %s: parser.error(...)' % viol, construct='bound %s not enforced for %s' % (name, T))
+        final_states[T] = (res, None, it)
     # ---- R3 (generation path) ----
     for T in TYPES:
         if T not in final_states:
@@ -466,6 +386,163 @@ def run(rep, repo, tier):
     check_no_output_before_acceptance(rep, repo)
     from .c17 import division_safety
     division_safety(rep, repo, 'C15.R6')
+
+
+# ---- semantic decision tables of parse() ------------------------------------------------------------------------------------
+GOOD = dict(numberinstances=1, outputdirectory='out', n1=4, n2=3, n3=2, minpreflistlength=1, maxpreflistlength=3, ties1=0.5, ties2=0.5,
+            lowerquotas=2, upperquotas=5, lecturerlowerquotas=1, lecturertargets=2, lecturerupperquotas=4, twopl=True, skew=2.0)
+# documented bound -> overrides (on a valuation with every applicable option present) that violate exactly this bound
+VIOLATE = {
+    'numberinstances >= 1': dict(numberinstances=0), 'n1 >= 1': dict(n1=0), 'n2 >= 1': dict(n2=0), 'n3 >= 1': dict(n3=0),
+    'pmin >= 1': dict(minpreflistlength=0), 'pmin <= pmax': dict(minpreflistlength=3, maxpreflistlength=2), 'pmax <= n2': dict(maxpreflistlength=4, n1=9),
+    't1 >= 0': dict(ties1=-0.5), 't1 <= 1': dict(ties1=1.5), 't2 >= 0': dict(ties2=-0.5), 't2 <= 1': dict(ties2=1.5),
+    'uq >= n2': dict(upperquotas=2, lowerquotas=1), 'lq <= uq': dict(lowerquotas=6), 'lt <= luq': dict(lecturertargets=5), 'llq <= lt': dict(lecturerlowerquotas=3),
+}
+# legal valuations on the boundary of the documented bounds (must be accepted)
+BOUNDARY = [
+    dict(n1=1, minpreflistlength=1, maxpreflistlength=1), dict(maxpreflistlength=3, minpreflistlength=3), dict(n1=2, n2=5, maxpreflistlength=4, upperquotas=6),
+    dict(upperquotas=3, lowerquotas=3), dict(ties1=0.0, ties2=1.0), dict(ties1=1.0, ties2=0.0), dict(lecturertargets=4, lecturerlowerquotas=2), dict(lecturerlowerquotas=2, lecturertargets=2),
+    dict(lowerquotas=0, lecturerlowerquotas=0, lecturertargets=0), dict(n2=1, minpreflistlength=1, maxpreflistlength=1, upperquotas=1, lowerquotas=0), dict(numberinstances=1), dict(skew=1.0),
+]
+
+
+def semantic_tables(rep, repo, pf, table, T, mpval, effs, it):
+    """R2 / R3 (option checking) / R4 decided on finitely many representative argument valuations of the problem type:
+    the effect tree of parse() is walked in program order under each valuation (termeval.simulate); a valuation is refused
+    when a parser.error call is reached, accepted when the end is reached, and any comparison or arithmetic that Python
+    would refuse on the values at hand (None < 1 ...) is reported.  Independent of how the checks are written
+    (inline guards, tables, helper predicates, lazily generated violation lists)."""
+    from ..termeval import PyEval, NOATOM, Raises, Refused, simulate, Leave
+    cfg = '[-mp %s]' % mpval
+    required = spec.GEN_REQUIRED[T]
+    banned = spec.GEN_BANNED[T]
+    always = {'numberinstances', 'outputdirectory'}
+    optional = set(table) - required - banned - always - {'matchingproblem'}
+
+    def is_error(e):
+        return e.kind == 'expr' and e.term[0] == 'call' and e.term[1][0] == 'attr' and e.term[1][2] == 'error'
+
+    def run_one(vals):
+        """-> ('accepted', None) | ('refused', eff) ; raises Raises / Unknown"""
+        def atom(t):
+            if t[0] == 'attr' and t[1] == ARGS:
+                if t[2] == 'matchingproblem':
+                    return mpval
+                if t[2] in vals:
+                    return vals[t[2]]
+                a = table.get(t[2])
+                return a.default if a is not None else None
+            if t[0] == 'call' and t[1][0] == 'attr' and t[1][2] == 'get_default' and len(t[2]) == 1 and t[2][0][0] == 'const':
+                a = table.get(t[2][0][1])
+                return a.default if a is not None else None
+            if t[0] == 'sym' and t[1] in ('PARSER',):
+                return 'PARSER'
+            return NOATOM
+        pe = PyEval(atom)
+        try:
+            simulate(pe, effs, is_error)
+        except Refused as r:
+            return 'refused', r.eff, pe
+        except Leave:
+            pass
+        return 'accepted', None, pe
+
+    def base(full):
+        v = {d: GOOD[d] for d in (required | always) if d in GOOD}
+        if full:
+            v.update({d: GOOD[d] for d in optional if d in GOOD})
+        return v
+
+    def show_vals(v):
+        return ' '.join('-%s %s' % (k, x) for k, x in sorted(v.items()) if k not in ('outputdirectory', 'numberinstances'))
+
+    problems = 0
+    n_val = 0
+    finals = {}
+    try:
+        # accepted: required only / everything applicable / boundary values
+        accept_sets = [('only the required parameters', base(False)), ('every applicable parameter', base(True))]
+        for bd in BOUNDARY:
+            v = base(True)
+            if not set(bd) <= set(v):
+                continue
+            v.update(bd)
+            accept_sets.append(('boundary values %s' % bd, v))
+        for label, v in accept_sets:
+            n_val += 1
+            verdict, e, pe = run_one(v)
+            if verdict != 'accepted':
+                problems += 1
+                rep.fail('C15.R2', e.where, 'a documented, in-range argument set of %s is accepted (%s)' % (T, label), got='refused: %s | %s' % (show(e.term)[:100], show_vals(v)), want='accepted',
+                         construct='valid %s set refused: %s' % (T, label), loc=e.loc)
+            else:
+                # abstract final values of every option after acceptance (for the generation path)
+                for d in table:
+                    t = it.heap.get(A(ARGS, d), A(ARGS, d))
+                    try:
+                        val = pe.ev(t)
+                    except Unknown:
+                        val = 'unknown'
+                    finals.setdefault(d, set()).add(NONE_ if val is None else (TRUE_ if val is True else FALSE_ if val is False else NUM))
+        # required / banned
+        for d in sorted(required):
+            v = base(False)
+            v.pop(d, None)
+            n_val += 1
+            verdict, e, _ = run_one(v)
+            if verdict != 'refused':
+                problems += 1
+                rep.fail('C15.R2', pf.where, 'a %s argument set without the required -%s is refused' % (T, d), got='accepted: ' + show_vals(v), want='parser.error', construct='%s accepted without %s' % (T, d))
+        for d in sorted(banned):
+            a = table.get(d)
+            candidates = [GOOD.get(d)]
+            # also the value the option is defaulted to later (an inapplicable option supplied with that very value must still be refused)
+            candidates += {'ties1': [0.0], 'ties2': [0.0], 'lowerquotas': [0], 'lecturerlowerquotas': [0], 'lecturertargets': [0], 'skew': [1.0]}.get(d, [])
+            for val in candidates:
+                if val is None:
+                    continue
+                v = base(False)
+                v[d] = val
+                n_val += 1
+                verdict, e, _ = run_one(v)
+                if verdict != 'refused':
+                    problems += 1
+                    rep.fail('C15.R2', pf.where, 'a %s argument set with the inapplicable -%s is refused' % (T, d), got='accepted: ' + show_vals(v), want='parser.error',
+                             construct='%s accepted with %s=%r' % (T, d, val))
+        # bounds
+        for name, viol in spec.GEN_BOUNDS:
+            if T not in APPLIES.get(name, tuple(TYPES)):
+                continue
+            ov = VIOLATE.get(name)
+            if ov is None:
+                continue
+            v = base(True)
+            ov = dict(ov)
+            if T == 'SM' and name == 'pmax <= n2':
+                ov = dict(maxpreflistlength=5)              # n2 is n1 = 4 for SM
+            if not set(ov) <= set(v) | {'n1'}:
+                continue
+            v.update({k: x for k, x in ov.items() if k in v})
+            n_val += 1
+            verdict, e, _ = run_one(v)
+            if verdict != 'refused':
+                problems += 1
+                rep.fail('C15.R4', pf.where, 'bound %s is enforced for problem type %s' % (name, T), got='accepted: ' + show_vals(v), want='if %s: parser.error(...)' % viol,
+                         construct='bound %s not enforced for %s' % (name, T))
+            else:
+                rep.ok('C15.R4', e.where, 'bound %s is enforced for %s' % (name, T), got='refused by %s' % show(e.term)[:80], loc=e.loc)
+    except Raises as r:
+        rep.fail('C15.R3', pf.where, 'option checks never compare or compute with an absent value %s' % cfg, got=str(r), want='a parser error or acceptance, never an exception',
+                 construct='option checking raises %s' % cfg)
+        return None
+    except Unknown as u:
+        rep.inconclusive('C15.R3', pf.where, 'parse() can be evaluated on representative argument sets %s' % cfg, got=str(u))
+        return None
+    rep.count('argument_valuations', n_val)
+    if problems == 0:
+        rep.ok('C15.R2', pf.where, 'required / inapplicable parameters of %s: every documented valid set accepted, every single omission and every inapplicable parameter refused' % T, got='%d valuations' % n_val)
+        rep.ok('C15.R3', pf.where, 'no option check fails with an exception on any of the %d representative valuations %s' % (n_val, cfg), got='none raised')
+    return finals
 
 
 def writers(repo):
